@@ -81,10 +81,17 @@ def main():
     meta["caught_by_any"] = any(v["exit"] == 1 for v in fired.values())
     dest = f"/verif/seeded/{seed_id}"
     os.makedirs(dest, exist_ok=True)
-    shutil.copy(patch, os.path.join(dest, "patch.diff"))
-    shutil.copy(demo, os.path.join(dest, "demo.py"))
-    if os.path.isfile(os.path.join(src, "notes.md")):
-        shutil.copy(os.path.join(src, "notes.md"), os.path.join(dest, "notes.md"))
+    if os.path.abspath(src) != os.path.abspath(dest):
+        shutil.copy(patch, os.path.join(dest, "patch.diff"))
+        shutil.copy(demo, os.path.join(dest, "demo.py"))
+        if os.path.isfile(os.path.join(src, "notes.md")):
+            shutil.copy(os.path.join(src, "notes.md"), os.path.join(dest, "notes.md"))
+    meta["verif_head"] = sh(["git", "-C", "/verif", "rev-parse", "--short", "HEAD"])[1].strip()
+    old_meta_path = os.path.join(dest, "meta.json")
+    if os.path.isfile(old_meta_path):
+        old = json.load(open(old_meta_path))
+        first = old.get("first_evaluation") or {k: old.get(k) for k in ("repo_head", "verif_head", "confirmed", "caught_by_claimed_property", "caught_by_any", "checks_reporting")}
+        meta["first_evaluation"] = first
     meta["what_i_ran"] = [
         "scratch worktree of /repo HEAD: demo.py without patch, with patch; pinned pytest command with patch",
         "git -C /repo apply patch.diff; python -m ttsa all --tier quick --no-evidence; git -C /repo checkout -- .",
